@@ -104,3 +104,5 @@ func (w *World) runInterestCaller(p *RPCPlan) {
 //
 //go:noinline
 func interestSender(f func()) { f() }
+
+func unsafePtr(b *byte) unsafe.Pointer { return unsafe.Pointer(b) }
